@@ -708,6 +708,14 @@ pub fn check(pid: &str, seed: u64) -> Value {
         }
         std::panic::set_hook(prev);
     }
+    if pid == "C03" {
+        // "a building that exports nothing": whether it exports depends on the EPB electricity use, auxiliaries included, as the file declares it -
+        // the conservation / sign sentences of the auxiliary assignment
+        let mut aux = crate::preds2::Rep { evals: 0, nontrivial: 0, failures: vec![], samples: vec![] };
+        crate::preds2::c06(&mut aux); crate::preds2::c06_special(&mut aux);
+        evals += aux.evals;
+        for f in aux.failures { let cl = f["clause"].as_str().unwrap_or("").to_string(); if cl == "C06.conserved" || cl == "C06.share_nonneg" || cl == "C06.counted_in_balance" { let mut g = f.clone(); g["clause"] = json!(format!("C03.exports_follow_the_declared_use({})", cl)); failures.push(g); } }
+    }
     if pid == "C12" {
         // "the EPB use" the two allocations are compared with is the use the file declares, auxiliaries included: the conservation sentences of the auxiliary assignment
         let mut aux = crate::preds2::Rep { evals: 0, nontrivial: 0, failures: vec![], samples: vec![] };
